@@ -299,8 +299,15 @@ fn hostile_tls_conn(r: &mut Rng, nonce: &mut u64, port: u16, span_ms: u64) -> Co
                 c.steps.push(Step::Send { data: Blob(hello[..cut].to_vec()), completes: None });
             }
             c.reqs.push(hostile(&format!("tls_truncated_hello@{cut}"), false, my));
-            let k = r.below(3);
-            ending(r, &mut c, k);
+            if r.chance(1, 2) {
+                // Stall in mid-handshake and stay: nothing ever times this
+                // connection out, and nothing else may depend on it.
+                c.steps.push(Step::AwaitEof { max_ms: 300_000 });
+                c.steps.push(Step::Close);
+            } else {
+                let k = r.below(2);
+                ending(r, &mut c, k);
+            }
         }
         3 => {
             // plain HTTP spoken to the TLS port
@@ -346,6 +353,14 @@ pub fn gen_random(seed: u64, idx: u64) -> Plan {
         conns.push(c);
     }
     let nb = r.usize_in(1, 6);
+    if tls {
+        // a healthy client that arrives late, while earlier handshakes may
+        // still be stalled
+        let mut c = healthy_conn(&mut r, &mut nonce, 10_050, span);
+        c.kind = ConnKind::Tls;
+        c.start_ms = span + r.range(1_000, 30_000);
+        conns.push(c);
+    }
     for i in 0..nb {
         if tls {
             conns.push(hostile_tls_conn(&mut r, &mut nonce, 11_000 + i as u16, span));
@@ -568,6 +583,18 @@ pub fn check_c18(plan: &Plan, out: &Outcome, probes: &mut Vec<&'static str>) -> 
         } else if !has_panic {
             // healthy clients get correct responses throughout
             probes.push("healthy_client_checked");
+            if cp.kind == ConnKind::Tls {
+                if let Some(e) = obs.h2_err.iter().flatten().next() {
+                    v.push(Violation {
+                        rule: "c18.healthy_tls_handshake_failed".into(),
+                        detail: format!(
+                            "conn {ci}: a healthy TLS client (connecting at {} ms) could not complete its handshake within {} virtual ms: {e}",
+                            cp.start_ms,
+                            crate::exec::LIVENESS_MS
+                        ),
+                    });
+                }
+            }
             for (k, rq) in cp.reqs.iter().enumerate() {
                 match &obs.by_req[k] {
                     None => {
